@@ -209,6 +209,12 @@ def run(ctx: Ctx) -> None:
     ctx.call(run_task_rule, "7")
     ctx.call(session_identity, "8")
     ctx.call(worker_params_alias, "8p")
+    from . import graphrules as GR8
+
+    # pull_locations names producers per object from the parent-side edge sets and from results seen through DIRECT bridges:
+    # both ends of every edge carry every object; every pair of equivalent nodes is bridged (also in the update tool)
+    ctx.call(GR8.edge_symmetry, "11")
+    ctx.call(GR8.bridging_sites, "12")
     from . import c16 as C16
 
     ctx.call(C16.graph_lookups, "10")
